@@ -538,6 +538,26 @@ class Tr:
                     fail(e, "division by a non-constant")
                 return V("N.div %s %s" % (paren(a.term), paren(b.term)), rt)
             fail(e, "unsupported uint64 operator '%s'" % op)
+        if rt.kind == "u" and rt.bits == 32:
+            if op == "+":
+                self.stats["wrap_ops"] += 1
+                return V("add32 %s %s" % (paren(a.term), paren(b.term)), rt)
+            if op == "-":
+                self.stats["wrap_ops"] += 1
+                return V("sub32u %s %s" % (paren(a.term), paren(b.term)), rt)
+            if op == "*":
+                self.stats["wrap_ops"] += 1
+                return V("mul32 %s %s" % (paren(a.term), paren(b.term)), rt)
+            if op == "<<":
+                self.stats["wrap_ops"] += 1
+                return V("shl32 %s %s" % (paren(a.term), paren(b.term)), rt)
+            if op == ">>":
+                return V("N.shiftr %s %s" % (paren(a.term), paren(b.term)), rt)
+            if op == "&":
+                return V("N.land %s %s" % (paren(a.term), paren(b.term)), rt)
+            if op == "|":
+                return V("N.lor %s %s" % (paren(a.term), paren(b.term)), rt)
+            fail(e, "unsupported uint32 operator '%s'" % op)
         if rt.kind == "s" and rt.bits == 32:
             if op == "-" and a.nonneg and b.nonneg:
                 # int subtraction of two non-negative ints: no signed overflow possible; the result may be
@@ -1152,6 +1172,306 @@ def is_jobs_i(n):
         i.get("kind") == "DeclRefExpr" and i["referencedDecl"]["name"] == "i"
 
 
+
+# ------------------------------------------------------------------ burst-level checks
+class ExprFnTr(Tr):
+    """Small always-inline helpers of the burst path: calc_cipher_tab_index (a single return
+    expression) and set_cipher_suite_id (locals + stores through the out-parameter id[])."""
+
+    def __init__(self, fname, enumvals):
+        Tr.__init__(self, fname, enumvals, job_names=("job",), params=[])
+
+    def read_lvalue(self, lv, env):
+        if lv.get("kind") == "DeclRefExpr" and lv["referencedDecl"]["name"] in self.job_names:
+            return V("(*job*)", ctype(lv), prov=("job",))
+        return Tr.read_lvalue(self, lv, env)
+
+    def val(self, e, env):
+        if e.get("kind") == "CallExpr" and self.callee_name(e) == "calc_cipher_tab_index":
+            a = strip_casts(e["inner"][1])
+            if not (a.get("kind") == "DeclRefExpr" and a["referencedDecl"]["name"] in self.job_names):
+                fail(e, "calc_cipher_tab_index() not applied to the job")
+            return V("calc_cipher_tab_index j", ctype(e))
+        return Tr.val(self, e, env)
+
+    def single_return(self, fdecl):
+        body = self.flatten([c for c in fdecl["inner"] if c.get("kind") == "CompoundStmt"])
+        self.prescan_paths(fdecl)
+        if len(body) != 1 or body[0].get("kind") != "ReturnStmt":
+            raise T2Error("%s: expected a single return statement" % self.fname)
+        v = self.val(body[0]["inner"][0], {})
+        if not (v.ct.kind == "u" and v.ct.bits == 32):
+            raise T2Error("%s: does not return an unsigned int" % self.fname)
+        return "Definition %s (j : job_view) : N :=\n  %s." % (self.fname, v.term)
+
+    def out_params(self, fdecl, outname, n):
+        """locals + `out[k] = expr;` stores; returns one Definition per k."""
+        body = self.flatten([c for c in fdecl["inner"] if c.get("kind") == "CompoundStmt"])
+        self.prescan_paths(fdecl)
+        env, lets, outs = {}, [], {}
+        for st in body:
+            k = st.get("kind")
+            if k == "DeclStmt":
+                for d in st["inner"]:
+                    init = [c for c in d.get("inner", []) if c.get("kind") != "FullComment"]
+                    if d.get("kind") != "VarDecl" or not init or "const" not in d["type"]["qualType"]:
+                        fail(d, "unsupported local in %s" % self.fname)
+                    v = self.val(init[0], env)
+                    env[d["name"]] = V(d["name"], v.ct, nonneg=v.nonneg)
+                    lets.append("let %s := %s in" % (d["name"], v.term))
+            elif k == "BinaryOperator" and st.get("opcode") == "=":
+                lhs = st["inner"][0]
+                if lhs.get("kind") != "ArraySubscriptExpr":
+                    fail(st, "unsupported store in %s" % self.fname)
+                b, i = strip_casts(lhs["inner"][0]), self.val(lhs["inner"][1], env)
+                if not (b.get("kind") == "DeclRefExpr" and b["referencedDecl"]["name"] == outname) or i.const is None:
+                    fail(st, "store not through %s[const]" % outname)
+                if ctype(lhs).kind != "u" or ctype(lhs).bits != 32:
+                    fail(st, "out-parameter element is not uint32_t")
+                v = self.val(st["inner"][1], env)
+                if not (v.ct.kind == "u" and v.ct.bits == 32):
+                    fail(st, "stored value is not an unsigned int")
+                if i.const in outs:
+                    fail(st, "element stored twice")
+                outs[i.const] = v.term
+            else:
+                fail(st, "unsupported statement in %s" % self.fname)
+        if sorted(outs) != list(range(n)):
+            raise T2Error("%s: expected stores to %s[0..%d]" % (self.fname, outname, n - 1))
+        return ["Definition %s_%d (j : job_view) : N :=\n  %s\n  %s." % (self.fname, k, "\n  ".join(lets), outs[k]) for k in range(n)]
+
+
+class BurstTr(Tr):
+    """The `if (run_check) { ... }` block of submit_burst_and_check().  Statement shapes are matched
+    against the small set that occurs there; every CONDITION is translated by the generic expression
+    translator (so a changed operator, constant or operand changes the image)."""
+
+    def __init__(self, enumvals):
+        Tr.__init__(self, "submit_burst_check", enumvals, job_names=(), params=[])
+
+    # --- special lvalues / calls of the burst path
+    def is_jobs_i(self, n):
+        return is_jobs_i(n)
+
+    def read_lvalue(self, lv, env):
+        k = lv.get("kind")
+        if k == "DeclRefExpr":
+            nm, dk = lv["referencedDecl"]["name"], lv["referencedDecl"]["kind"]
+            if nm == "jobs" and dk == "ParmVarDecl":
+                return V("(*jobs*)", ctype(lv), prov=("jobs",))
+            if nm == "n_jobs" and dk == "ParmVarDecl":
+                return V("n_jobs", ctype(lv))
+            if nm == "i" and dk == "VarDecl" and env.get("__in_loop__"):
+                return V("i", ctype(lv))
+            if nm == "job_offset":
+                return V("(*job_offset*)", ctype(lv), prov=("job_offset",))
+        if k == "ArraySubscriptExpr":
+            if self.is_jobs_i(lv) and env.get("__in_loop__"):
+                return V("(*jobs[i]*)", ctype(lv), prov=("entry",))
+            b = strip_casts(lv["inner"][0])
+            iv = self.val(lv["inner"][1], env)
+            if b.get("kind") == "DeclRefExpr" and b["referencedDecl"]["name"] == "t" and iv.const in (0, 1) and env.get("__t__"):
+                return V(env["__t__"][iv.const], ctype(lv))
+            if b.get("kind") == "MemberExpr" and b.get("name") == "suite_id" and b.get("isArrow") and \
+               self.is_jobs_i(b["inner"][0]) and iv.const in (0, 1):
+                return V("be_suite%d e" % iv.const, ctype(lv))
+        return Tr.read_lvalue(self, lv, env)
+
+    def val(self, e, env):
+        if e.get("kind") == "CallExpr":
+            c = self.callee_name(e)
+            if c == "queue_sz_remaining":
+                a = strip_casts(e["inner"][1])
+                if not (a.get("kind") == "DeclRefExpr" and a["referencedDecl"]["name"] == "state"):
+                    fail(e, "queue_sz_remaining() not applied to state")
+                return V("bv_queue_space b", ctype(e))
+            if c == "JOBS":
+                a, o = strip_casts(e["inner"][1]), strip_casts(e["inner"][2])
+                if not (a.get("kind") == "DeclRefExpr" and a["referencedDecl"]["name"] == "state" and
+                        o.get("kind") == "DeclRefExpr" and o["referencedDecl"]["name"] == "job_offset"):
+                    fail(e, "JOBS() not applied to (state, job_offset)")
+                return V("(*expected slot*)", ctype(e), prov=("expected_slot",))
+        return Tr.val(self, e, env)
+
+    def cond(self, e, env):
+        if e.get("kind") == "BinaryOperator" and e.get("opcode") in ("==", "!="):
+            a, b = self.val(e["inner"][0], env), self.val(e["inner"][1], env)
+            pos = e["opcode"] == "=="
+            for x, y in ((a, b), (b, a)):
+                if x.prov == ("jobs",) and y.const == 0 and y.ct.kind == "ptr":
+                    return "bv_jobs_null b" if pos else "negb (bv_jobs_null b)"
+                if x.prov == ("entry",) and y.const == 0 and y.ct.kind == "ptr":
+                    return "be_null e" if pos else "negb (be_null e)"
+                if x.prov == ("entry",) and y.prov == ("expected_slot",):
+                    return "be_in_order e" if pos else "negb (be_in_order e)"
+            if a.prov in (("jobs",), ("entry",), ("expected_slot",)) or b.prov in (("jobs",), ("entry",), ("expected_slot",)):
+                fail(e, "unsupported pointer comparison in the burst check")
+        return Tr.cond(self, e, env)
+
+    # --- statements
+    def reject_body(self, stmts, env, in_loop):
+        """`imb_set_errno(state, E); return 0;` -> whole-burst error;  `...; goto return_invalid_job;` -> job i"""
+        st = self.flatten(stmts)
+        err = None
+        if st and st[0].get("kind") == "CallExpr" and self.callee_name(st[0]) == "imb_set_errno":
+            a0 = strip_casts(st[0]["inner"][1])
+            if not (a0.get("kind") == "DeclRefExpr" and a0["referencedDecl"]["name"] == "state"):
+                fail(st[0], "imb_set_errno first argument is not 'state'")
+            ev = self.val(st[0]["inner"][2], env)
+            if ev.const is None or ev.const <= 0:
+                fail(st[0], "imb_set_errno with a non-constant error")
+            err, st = ev.term, st[1:]
+        if len(st) != 1:
+            fail(stmts[0] if stmts else None, "unexpected statements in a rejecting branch")
+        if st[0].get("kind") == "ReturnStmt":
+            rv = self.val(st[0]["inner"][0], env)
+            if rv.const != 0 or err is None:
+                fail(st[0], "whole-burst rejection must be `imb_set_errno(..); return 0;`")
+            return ("whole", err)
+        if st[0].get("kind") == "GotoStmt":
+            if not in_loop or st[0].get("targetLabelDeclId") != self.invalid_label_id:
+                fail(st[0], "goto to an unexpected label")
+            return ("job", err)
+        fail(st[0], "unexpected statement in a rejecting branch")
+
+    def check_invalid_label(self, fdecl):
+        """return_invalid_job: jobs[i]->status = IMB_STATUS_INVALID_ARGS; jobs[0] = jobs[i]; return 0;"""
+        found = []
+
+        def walk(n):
+            if n.get("kind") == "LabelStmt" and n.get("name") == "return_invalid_job":
+                found.append(n)
+            for c in n.get("inner", []):
+                if isinstance(c, dict):
+                    walk(c)
+        walk(fdecl)
+        if len(found) != 1:
+            raise T2Error("label return_invalid_job not found exactly once")
+        self.invalid_label_id = found[0].get("declId")
+        first = found[0]["inner"][0]
+        ok = first.get("kind") == "BinaryOperator" and first.get("opcode") == "=" and \
+            strip_casts(first["inner"][0]).get("name") == "status"
+        rhs = strip_casts(first["inner"][1]) if ok else {}
+        if not (ok and rhs.get("kind") == "DeclRefExpr" and rhs["referencedDecl"]["name"] == "IMB_STATUS_INVALID_ARGS"):
+            raise T2Error("return_invalid_job does not start with `jobs[i]->status = IMB_STATUS_INVALID_ARGS`")
+
+    def translate(self, fdecl):
+        self.check_invalid_label(fdecl)
+        body = [c for c in fdecl["inner"] if c.get("kind") == "CompoundStmt"][0]
+        blocks = []
+        for s in body["inner"]:
+            if s.get("kind") == "IfStmt":
+                c = strip_casts(s["inner"][0])
+                if c.get("kind") == "DeclRefExpr" and c["referencedDecl"]["name"] == "run_check":
+                    blocks.append(s)
+        if len(blocks) != 1 or len(blocks[0]["inner"]) != 2:
+            raise T2Error("submit_burst_and_check: expected exactly one `if (run_check) {...}` block without else")
+        stmts = self.flatten([blocks[0]["inner"][1]])
+        env = {}
+        pre, loop = [], None
+        for st in stmts:
+            k = st.get("kind")
+            if loop is not None:
+                fail(st, "statement after the validation loop inside the run_check block")
+            if k == "DeclStmt":
+                d = st["inner"][0]
+                if d.get("name") != "job_offset":
+                    fail(st, "unexpected declaration in the run_check block")
+                init = strip_casts(d["inner"][0])
+                if not (init.get("kind") == "MemberExpr" and init.get("name") == "next_job"):
+                    fail(st, "job_offset is not initialised from state->next_job")
+                continue
+            if k == "IfStmt":
+                if len(st["inner"]) != 2:
+                    fail(st, "if with else in the run_check block")
+                c = self.cond(st["inner"][0], env)
+                kind, err = self.reject_body([st["inner"][1]], env, False)
+                pre.append((c, err))
+                continue
+            if k == "ForStmt":
+                loop = st
+                continue
+            fail(st, "unsupported statement in the run_check block")
+        if loop is None:
+            raise T2Error("no validation loop in the run_check block")
+        ch = loop["inner"]
+        init, cnd, inc, lbody = ch[0], ch[2], ch[3], ch[4]
+        ok = init.get("kind") == "BinaryOperator" and init.get("opcode") == "=" and \
+            strip_casts(init["inner"][0]).get("referencedDecl", {}).get("name") == "i" and self.val(init["inner"][1], env).const == 0
+        ok = ok and inc.get("kind") == "UnaryOperator" and inc.get("opcode") == "++" and \
+            strip_casts(inc["inner"][0]).get("referencedDecl", {}).get("name") == "i"
+        if not ok:
+            fail(loop, "loop is not `for (i = 0; ...; i++)`")
+        lenv = {"__in_loop__": True}
+        lc = self.cond(cnd, lenv)
+        if lc != "(i <? n_jobs)":
+            fail(loop, "loop condition is not i < n_jobs (%s)" % lc)
+        steps = []      # list of ("if", cond, kind, err) | ("invalid",) | ("suite",)
+        seen_adv = False
+        for st in self.flatten([lbody]):
+            k = st.get("kind")
+            if k == "IfStmt":
+                if len(st["inner"]) != 2:
+                    fail(st, "if with else in the validation loop")
+                c0 = strip_casts(st["inner"][0])
+                if c0.get("kind") == "CallExpr" and self.callee_name(c0) == "is_job_invalid":
+                    kind, err = self.reject_body([st["inner"][1]], lenv, True)
+                    if kind != "job" or err is not None:
+                        fail(st, "is_job_invalid() branch must be a bare `goto return_invalid_job`")
+                    self.invalid_call = c0
+                    steps.append(("invalid",))
+                    continue
+                c = self.cond(st["inner"][0], lenv)
+                kind, err = self.reject_body([st["inner"][1]], lenv, True)
+                if err is None:
+                    fail(st, "rejecting branch without imb_set_errno()")
+                if "be_in_order" in c and seen_adv:
+                    fail(st, "slot comparison after ADV_JOBS")
+                steps.append(("if", c, kind, err))
+                continue
+            if k == "CallExpr" and self.callee_name(st) == "ADV_JOBS":
+                a = strip_casts(st["inner"][1])
+                if not (a.get("kind") == "UnaryOperator" and a.get("opcode") == "&" and
+                        strip_casts(a["inner"][0]).get("referencedDecl", {}).get("name") == "job_offset"):
+                    fail(st, "ADV_JOBS not applied to &job_offset")
+                if seen_adv:
+                    fail(st, "ADV_JOBS called twice per iteration")
+                seen_adv = True
+                continue
+            if k == "DeclStmt":
+                d = st["inner"][0]
+                if d.get("name") != "t" or "[2]" not in d["type"]["qualType"]:
+                    fail(st, "unexpected declaration in the validation loop")
+                continue
+            if k == "CallExpr" and self.callee_name(st) == "set_cipher_suite_id":
+                if not self.is_jobs_i(st["inner"][1]) or strip_casts(st["inner"][2]).get("referencedDecl", {}).get("name") != "t":
+                    fail(st, "set_cipher_suite_id not applied to (jobs[i], t)")
+                lenv["__t__"] = ("t0", "t1")
+                steps.append(("suite",))
+                continue
+            fail(st, "unsupported statement in the validation loop")
+        if not seen_adv or ("invalid",) not in steps:
+            raise T2Error("validation loop lacks ADV_JOBS or the is_job_invalid() call")
+        # emit
+        body = "submit_burst_check_loop es' (add32 i 1) n_jobs"
+        for stp in reversed(steps):
+            if stp[0] == "if":
+                _, c, kind, err = stp
+                rej = "BurstReject %s %s" % (err, "(Some i)" if kind == "job" else "None")
+                body = "if %s then %s\nelse %s" % (c, rej, body)
+            elif stp[0] == "invalid":
+                body = "match is_job_invalid (be_job e) with\n| Some err => BurstReject err (Some i)   (* errno set inside is_job_invalid() *)\n| None =>\n%s\nend" % indent(body, 2)
+            else:
+                body = "let t0 := set_cipher_suite_id_0 (be_job e) in\nlet t1 := set_cipher_suite_id_1 (be_job e) in\n" + body
+        loopdef = ("Fixpoint submit_burst_check_loop (es : list burst_entry) (i n_jobs : N) {struct es} : burst_verdict :=\n"
+                   "  if (i <? n_jobs) then\n    match es with\n    | [] => BurstReject ERR_MODEL_VIEW_EXHAUSTED None\n    | e :: es' =>\n%s\n    end\n  else BurstAccept."
+                   % indent(body, 6))
+        top = "submit_burst_check_loop (bv_entries b) 0 n_jobs"
+        for c, err in reversed(pre):
+            top = "if %s then BurstReject %s None\nelse %s" % (c, err, top)
+        topdef = "Definition submit_burst_check (b : burst_view) : burst_verdict :=\n  let n_jobs := bv_n_jobs b in\n%s." % indent(top, 2)
+        return [loopdef, topdef]
+
 # ------------------------------------------------------------------ driver
 def translate_tu(tu_rel, enumvals):
     flags = tu_flags(tu_rel)
@@ -1188,6 +1508,18 @@ def translate_tu(tu_rel, enumvals):
     al = call_site_args(CallTr(enumvals, is_param_job), cl[0], is_param_job, with_job=False)
     out.append("(* actual arguments at the call site in imb_set_session() (lib/x86_64/cipher_suite_id.c) *)\n"
                "Definition is_job_invalid_light (j : job_view) : option N :=\n  is_job_invalid_light_fn j %s." % " ".join(paren(a) for a in al))
+    # burst-level checks: calc_cipher_tab_index, set_cipher_suite_id, run_check block of submit_burst_and_check
+    fc = get_function(clang_ast(tu_rel, flags, "calc_cipher_tab_index"), "calc_cipher_tab_index", tu_rel)
+    fs = get_function(clang_ast(tu_rel, flags, "set_cipher_suite_id"), "set_cipher_suite_id", tu_rel)
+    out.append("(* ---- asynchronous burst API: checks of submit_burst_and_check() (mb_mgr_burst_async.h, run_check = 1)\n"
+               "   and the suite-id helpers of mb_mgr_job_api.h ---- *)")
+    out.append(ExprFnTr("calc_cipher_tab_index", enumvals).single_return(fc))
+    out += ExprFnTr("set_cipher_suite_id", enumvals).out_params(fs, "id", 2)
+    bt = BurstTr(enumvals)
+    out += bt.translate(sb)
+    ab2 = call_site_args(CallTr(enumvals, is_jobs_i), bt.invalid_call, is_jobs_i)
+    if ab2 != aj:
+        raise T2Error("is_job_invalid() inside the burst validation loop is called with different arguments")
     stats["layout_paths"] = len(t2.used_paths)
     return out, stats, flags
 
